@@ -210,6 +210,15 @@ class Run(object):
             src = bytearray(data)
         elif srckind == 'memoryview':
             src = memoryview(data)
+        elif srckind in ('array_H', 'array_I', 'mvcast_H', 'mvcast_Q') and ln and ln % {'H': 2, 'I': 4, 'Q': 8}[srckind[-1]] == 0:
+            # sources whose items are wider than one byte: what counts is their size in bytes
+            import array
+            if srckind.startswith('array'):
+                src = array.array(srckind[-1])
+                src.frombytes(data)
+            else:
+                src = memoryview(bytearray(data)).cast(srckind[-1])
+            self.out.probe('slice_assignment_from_a_source_with_wide_items')
         elif srckind == 'ffibuf':
             tmp = self.ffi.new('char[]', max(ln, 1))
             self.ffi.buffer(tmp)[0:ln] = data
@@ -572,7 +581,7 @@ class C19(core.Check):
                 else:
                     ops.append(['bwrite', k, 'slice', rnd_bound(rng, 48), rnd_bound(rng, 48), r,
                                 rng.weighted([('right', 6), ('less', 2), ('more', 2)]),
-                                rng.choice(['bytes', 'bytearray', 'memoryview', 'ffibuf'])])
+                                rng.choice(['bytes', 'bytearray', 'memoryview', 'ffibuf', 'array_H', 'array_I', 'mvcast_H', 'mvcast_Q'])])
             elif n == 'frombuf':
                 ops.append(['frombuf', k, rng.choice(ENAMES),
                             rng.weighted([('open', 5), ('fixed_ok', 3), ('fixed_toobig', 2), ('ptr', 1)]),
